@@ -65,6 +65,7 @@ class Port(Base):
         super().__init__(**kwargs)  # platform, note
         self._protocol = h.init_protocol(line=line, **kwargs)
         self._port_nr = bool(kwargs.get("port_nr"))
+        self._operator = ""
         self.line = line
 
     def __repr__(self):
@@ -142,10 +143,15 @@ class Port(Base):
             self._sport = ""
             return
 
+        operator_old = self._operator
         self._operator = self._line__operator(items)
         items = items[1:]
-        _items: LInt = self._line__items_to_ints(items)
-        ports: LInt = self._items_to_ports(_items)
+        try:
+            _items: LInt = self._line__items_to_ints(items)
+            ports: LInt = self._items_to_ports(_items)
+        except ValueError:
+            self._operator = operator_old  # a rejected line changes nothing
+            raise
         self._items = _items
         self._ports = ports
         self._sport = h.ports_to_string(ports)
